@@ -283,6 +283,7 @@ func main() {
 				}
 			}
 		}
+		rewroteSync := false
 		clauseBlocks := map[*ast.BlockStmt]bool{} // bodies that hold case clauses, not statements
 		ast.Inspect(f.file, func(n ast.Node) bool {
 			switch t := n.(type) {
@@ -301,7 +302,19 @@ func main() {
 			case *ast.CommClause:
 				visitList(t.Body)
 			case *ast.GoStmt:
-				unsupported = append(unsupported, fmt.Sprintf("%s:%d: go statement inside the library", rel, line(t.Pos())))
+				// `go F(a, b)` -> `simsched.Go2(F, a, b)`: the goroutine becomes a
+				// scheduler task; F and the arguments are still evaluated here
+				c := t.Call
+				if len(c.Args) > 6 || c.Ellipsis.IsValid() {
+					unsupported = append(unsupported, fmt.Sprintf("%s:%d: go statement with more than 6 or variadic arguments", rel, line(t.Pos())))
+					break
+				}
+				add(pos(t.Pos()), pos(c.Fun.Pos())-pos(t.Pos()), fmt.Sprintf("simsched.Go%d(", len(c.Args)))
+				if len(c.Args) == 0 {
+					add(pos(c.Lparen), 1, "")
+				} else {
+					add(pos(c.Lparen), 1, ", ")
+				}
 			case *ast.SendStmt:
 				unsupported = append(unsupported, fmt.Sprintf("%s:%d: channel send inside the library", rel, line(t.Pos())))
 			case *ast.SelectStmt:
@@ -310,6 +323,14 @@ func main() {
 			case *ast.UnaryExpr:
 				if t.Op == token.ARROW {
 					unsupported = append(unsupported, fmt.Sprintf("%s:%d: channel receive inside the library", rel, line(t.Pos())))
+				}
+			case *ast.SelectorExpr:
+				if id, ok := t.X.(*ast.Ident); ok && id.Name == "sync" && t.Sel.Name == "WaitGroup" {
+					add(pos(t.Pos()), pos(t.End())-pos(t.Pos()), "simsched.WaitGroup")
+					rewroteSync = true
+				}
+				if id, ok := t.X.(*ast.Ident); ok && id.Name == "sync" && t.Sel.Name == "Cond" {
+					unsupported = append(unsupported, fmt.Sprintf("%s:%d: sync.Cond inside the library", rel, line(t.Pos())))
 				}
 			case *ast.CallExpr:
 				sel, ok := t.Fun.(*ast.SelectorExpr)
@@ -328,8 +349,6 @@ func main() {
 					// only the head is replaced: the argument (often a func literal
 					// with statements of its own) keeps its yield points
 					add(pos(t.Pos()), pos(t.Lparen)+1-pos(t.Pos()), fmt.Sprintf("simsched.OnceDo(&%s, ", recv))
-				case sel.Sel.Name == "Wait" && len(t.Args) == 0:
-					unsupported = append(unsupported, fmt.Sprintf("%s:%d: blocking Wait() inside the library", rel, line(t.Pos())))
 				}
 			}
 			return true
@@ -338,6 +357,9 @@ func main() {
 			continue
 		}
 		add(pos(f.file.Name.End()), 0, fmt.Sprintf("; import simsched %q", simImport))
+		if rewroteSync { // keep the file's "sync" import used
+			add(len(f.src), 0, "\nvar _ sync.Locker\n")
+		}
 		// apply splices back to front; nested rewrites (a Lock inside a
 		// rewritten argument) do not occur with these patterns
 		sort.SliceStable(sp, func(i, j int) bool {
